@@ -28,8 +28,13 @@ def run(prop, tier, workdir):
         res = {"name": "Apalache %s %s: %s" % (mod, " ".join(args), what), "states": 0, "transitions": 0, "violations": [], "tool_errors": [],
                "replayed": 0, "replay_execs": 0, "samples": [], "distinct": 0, "exhaustive": False, "emitted": 0}
         try:
+            # the launcher creates its java.io.tmpdir with mktemp -t: keep it under the (git-ignored) work directory
+            tmpd = os.path.join(workdir, "apalache-tmp")
+            os.makedirs(tmpd, exist_ok=True)
             r = subprocess.run(["apalache-mc", "check"] + args + ["--out-dir=" + od, mod], cwd=APA, stdout=subprocess.PIPE,
-                               stderr=subprocess.STDOUT, text=True, timeout=300 if tier == "quick" else 1200)
+                               stderr=subprocess.STDOUT, text=True, timeout=300 if tier == "quick" else 1200,
+                               env=dict(os.environ, TMPDIR=tmpd))
+            shutil.rmtree(tmpd, ignore_errors=True)
             ok = "EXITCODE: OK" in r.stdout
             refuted = "EXITCODE: ERROR (12)" in r.stdout
             if expect == "OK" and ok:
